@@ -1212,7 +1212,7 @@ func synthSave(o *hx.Out, r *hx.Rng, secs int) {
 	for _, i := range order {
 		// up to 256 / 8 entries the library has an indirect palette; above, the vanilla layout (palette +
 		// 9..15-bit / 4..6-bit indices) is resolved into direct ids (since fix 6364be8)
-		k := r.Pick(1, 2, 5, 16, 17, 32, 33, 100, 256, 257, 300, 513, 1000)
+		k := r.Pick(1, 2, 5, 16, 17, 32, 33, 100, 256, 257, 300, 512, 513, 1000)
 		kb := r.Pick(1, 2, 3, 4, 5, 7, 8, 9, 16, 17, 20)
 		ids := make([]int, k)
 		base := r.Intn(nStates)
